@@ -593,6 +593,7 @@ class HarnessRT(object):
         self.book = None
         self.track_running = True
         self.label = ""
+        self.deep_repr = None
         self.cancelled_batches = 0
         self.in_flush_sync = 0
         self.nested_flush_calls = 0
@@ -615,6 +616,10 @@ class HarnessRT(object):
         self.before_count = 0
 
     def __repr__(self):
+        if self.deep_repr is not None:
+            # a legal argument whose repr() cannot be computed: a structure nested deeper than the recursion limit
+            # (repr() raises RecursionError, a RuntimeError, by itself)
+            return "rt#%s%r" % (self.label, self.deep_repr)
         return "rt#%s" % (self.label,)
 
     # ---- logging
